@@ -88,3 +88,38 @@ Fixpoint hist_mismatches_from (i : nat) (hs : list (list case)) : list nat :=
   | h :: t => if hist_ok h then hist_mismatches_from (S i) t else i :: hist_mismatches_from (S i) t
   end.
 Definition hist_mismatches := hist_mismatches_from 0.
+
+(* Several files written by ONE mockery run.  [m_fs] = content of the file every configured
+   boilerplate path string resolves to (resolved by the harness on the real file system);
+   [m_files] = (configured boilerplate-file string, case) per output file.  The model's
+   [run_all] is evaluated over all jobs of the run and compared file by file; every file is
+   also checked as an ordinary case (with its own boilerplate bytes). *)
+Record mrun := { m_fs : list (str * str); m_files : list (option str * case) }.
+
+Fixpoint assoc (k : str) (l : list (str * str)) : option str :=
+  match l with [] => None | (k', v) :: t => if seqb k k' then Some v else assoc k t end.
+
+Definition job_of (pc : option str * case) : job :=
+  let c := snd pc in
+  {| j_fmt := c_fmt c; j_tmpl := c_tmpl c; j_bpfile := fst pc; j_tags := c_tags c; j_pkg := c_pkg c |}.
+
+Fixpoint all2 {A B} (f : A -> B -> bool) (a : list A) (b : list B) : bool :=
+  match a, b with
+  | [], [] => true
+  | x :: a', y :: b' => f x y && all2 f a' b'
+  | _, _ => false
+  end.
+
+Definition mrun_ok (m : mrun) : bool :=
+  all2 (fun r pc => match r with
+                    | Some content => seqb content (c_obs (snd pc)) && check_case (snd pc)
+                    | None => false
+                    end)
+       (run_all (fun _ => []) (fun p => assoc p (m_fs m)) (map job_of (m_files m))) (m_files m).
+
+Fixpoint mrun_mismatches_from (i : nat) (ms : list mrun) : list nat :=
+  match ms with
+  | [] => []
+  | m :: t => if mrun_ok m then mrun_mismatches_from (S i) t else i :: mrun_mismatches_from (S i) t
+  end.
+Definition mrun_mismatches := mrun_mismatches_from 0.
